@@ -405,6 +405,11 @@ func (c *Cairn) GetMove(p *tak.Position) (tak.Move, bool) {
 		} else {
 			y = wy - 1
 		}
+		if p.Top(int(x), int(y)) != 0 {
+			// one of the first two stones is in the way:
+			// take any free square the rule accepts
+			x, y = c.freeReply(p)
+		}
 		return tak.Move{
 			Type: tak.PlaceFlat, X: x, Y: y,
 		}, true
@@ -435,6 +440,21 @@ func (c *Cairn) GetMove(p *tak.Position) (tak.Move, bool) {
 		}, true
 	}
 	return tak.Move{}, false
+}
+
+// freeReply finds an empty square on which black may answer white's
+// stone: adjacent to the center and two steps from that stone.
+func (c *Cairn) freeReply(p *tak.Position) (int8, int8) {
+	for y := int8(0); y < int8(p.Size()); y++ {
+		for x := int8(0); x < int8(p.Size()); x++ {
+			m := tak.Move{Type: tak.PlaceFlat, X: x, Y: y}
+			if p.Top(int(x), int(y)) == 0 && isCenterAdjacent(p, m) &&
+				distance(x, y, c.whitePlace.X, c.whitePlace.Y) == 2 {
+				return x, y
+			}
+		}
+	}
+	panic("no free reply")
 }
 
 func (c *Cairn) SurveyURL() string {
